@@ -144,8 +144,6 @@ func intrinsic(ex *Exec, st *State, site ssa.Instruction, fn *ssa.Function, args
 		c := args[0].(*smt.Term)
 		msg := concreteStrArg(args[1], "Assert message")
 		ex.outcome("assert", msg, site, smt.And(st.pc, smt.Not(c)))
-		// continue on the passing side (later assertions are checked independently)
-		st.assume(c)
 		return nil
 	case "Cover":
 		ex.outcome("cover", concreteStrArg(args[0], "Cover label"), site, st.pc)
